@@ -7,7 +7,9 @@ package main
 import (
 	"encoding/hex"
 	"go/types"
+	"net"
 	"reflect"
+	"regexp"
 	"strconv"
 	"strings"
 	"unicode"
@@ -69,7 +71,53 @@ var nativeFuncs = map[string]interface{}{
 	"unicode.ToUpper":        unicode.ToUpper,
 }
 
+func registerRegexp() {
+	intrinsics["regexp.MustCompile"] = func(in *Interp, _ *Frame, _ *ssa.Function, a []Value) (Value, bool) {
+		s, ok := a[0].(Str).Concrete()
+		if !ok {
+			panic(&pathEnd{kind: "unsupported", msg: "regexp.MustCompile of symbolic pattern"})
+		}
+		return &Native{v: reflect.ValueOf(regexp.MustCompile(s))}, true
+	}
+	conc := func(in *Interp, v Value) ([]byte, bool) {
+		switch x := v.(type) {
+		case Str:
+			s, ok := x.Concrete()
+			return []byte(s), ok
+		case SliceV:
+			var bs []byte
+			for _, e := range in.sliceElems(x) {
+				t := e.(*Term)
+				if !t.konst {
+					return nil, false
+				}
+				bs = append(bs, byte(t.cv))
+			}
+			return bs, true
+		}
+		return nil, false
+	}
+	match := func(in *Interp, _ *Frame, _ *ssa.Function, a []Value) (Value, bool) {
+		re := a[0].(*Native).v.Interface().(*regexp.Regexp)
+		bs, ok := conc(in, a[1])
+		if !ok {
+			panic(&pathEnd{kind: "unsupported", msg: "regexp match on symbolic input"})
+		}
+		return in.F.Bool(re.Match(bs)), true
+	}
+	intrinsics["(*regexp.Regexp).Match"] = match
+	intrinsics["(*regexp.Regexp).MatchString"] = match
+}
+
 func registerNativeCallouts() {
+	registerRegexp()
+	intrinsics["(net.IP).String"] = func(in *Interp, _ *Frame, _ *ssa.Function, a []Value) (Value, bool) {
+		v, ok := in.toNative(a[0], reflect.TypeOf([]byte(nil)))
+		if !ok {
+			return Str{s: "<sym-ip>"}, true
+		}
+		return Str{s: net.IP(v.Bytes()).String()}, true
+	}
 	for name, f := range nativeFuncs {
 		rf := reflect.ValueOf(f)
 		name := name
